@@ -320,8 +320,23 @@ def r20_8(ctx: Ctx) -> None:
     declares it) is cached on the folder object; the task that has worked a folder through lets it go (`<folder>.decompressor = None` in a
     `finally` of Worker.extract_single), not only reset()/close().  And (b) packed input is read for a decode step only when ... see R20.9."""
     f = ctx.prog.func("py7zr", "Worker.extract_single")
-    rel = [n for t in walk(f.node) if isinstance(t, ast.Try) for st in t.finalbody for n in ast.walk(st)
-           if isinstance(n, ast.Assign) and isinstance(n.targets[0], ast.Attribute) and n.targets[0].attr == "decompressor" and isinstance(n.value, ast.Constant) and n.value.value is None]
+    def releases(fn_node):
+        return [n for t in ast.walk(fn_node) if isinstance(t, ast.Try) for st in t.finalbody for n in ast.walk(st)
+                if isinstance(n, ast.Assign) and isinstance(n.targets[0], ast.Attribute) and n.targets[0].attr == "decompressor" and isinstance(n.value, ast.Constant) and n.value.value is None]
+    rel = releases(f.node)
+    if not rel:
+        # the same thing written as a context manager of the class: `with self._x(files): <the task>` where _x is a generator decorated with
+        # contextlib.contextmanager whose `yield` stands in a try with the release in its finally, and the task's work lies inside the with block
+        cls = ctx.prog.cls("Worker", "py7zr")
+        for w in [w for w in walk(f.node) if isinstance(w, ast.With)]:
+            for it in w.items:
+                c = it.context_expr
+                if isinstance(c, ast.Call) and isinstance(c.func, ast.Attribute) and norm(c.func.value) == "self":
+                    m = ctx.prog.method(cls, c.func.attr)
+                    if m is not None and any("contextmanager" in norm(d) for d in m.node.decorator_list) and any(
+                            isinstance(t, ast.Try) and any(isinstance(y, (ast.Yield, ast.YieldFrom)) for st in t.body for y in ast.walk(st)) for t in ast.walk(m.node)) and any(
+                            isinstance(x, ast.Call) and attr_tail(x) == "_extract_single" for st in w.body for x in ast.walk(st)):
+                        rel = releases(m.node)
     ctx.check(bool(rel), "R20.8", f, rel[0] if rel else f.node, "a folder's decoder is released when the folder has been worked through",
               "Worker.extract_single leaves the decoder of every folder it has decoded cached on the folder until reset()/close(): with five folders of LZMA2 data and a 192 MiB "
               "dictionary each (a 381 KiB archive) extraction and testzip() peak at 1.3 GiB - one such folder needs 570 MiB", construct="decoders kept per folder")
